@@ -23,6 +23,30 @@ def runSends (p : Pool) (f : Option Bytes) (to : List Bytes) (msg : Bytes) : Nat
 
 def stripQuit (l : List Bytes) : List Bytes := if l.getLast? == some quitLine then l.dropLast else l
 
+/-- `tconn <client> <script> | true|false|err <units>`: `test_connection()` = connect (greeting, EHLO), then one NOOP.
+    It fails when the connection cannot be set up, answers `true` exactly when the peer answers the NOOP positively, and
+    sends nothing else (a QUIT at most). Scripts of complete replies only. -/
+def tconnOp : List String → String
+  | [_client, scriptS, res, unitsS] =>
+    if res == "PANIC" then propfail "panic" else
+    match parseScript scriptS, hexList unitsS with
+    | some sc, some units =>
+      let pos (st : Option Step) : Bool := match st.bind stepReply with
+        | some r => r.code.1 == 2 || r.code.1 == 3   -- `Response::is_positive`: a 3yz reply to NOOP is outside the claim, and counts as positive in the code
+        | none => false
+      let closes (st : Option Step) : Bool := (st.map (·.close)).getD true
+      let greetOk := pos sc.head? && !closes sc.head?
+      let ehloOk := greetOk && pos (sc.drop 1).head? && !closes (sc.drop 1).head?
+      let exp := if !ehloOk then "err" else if pos (sc.drop 2).head? then "true" else "false"
+      let ehlo := Client.ehloLine (str "c.example")
+      let us := if units.getLast? == some Client.quitLine then units.dropLast else units
+      let expUnits : List Bytes := if !greetOk then [] else if !ehloOk then [ehlo] else [ehlo, Client.noopLine]
+      if res != exp then propfail s!"test_connection-says-{res}-expected-{exp}"
+      else if us != expUnits && !(us.isEmpty && !greetOk) then propfail "test_connection-sent-something-else"
+      else "ok"
+    | _, _ => "BADLINE"
+  | l => if l.contains "PANIC" then propfail "panic" else "BADLINE"
+
 /-- `pool <client> <T> <max_size> <stall> <nsends> <from> <to> <msg> <scripts> | <results> <units>` -/
 def poolOp : List String → String
   | [client, tms, maxSize, stall, nsends, from_, to, msg, scripts, results, units] =>
